@@ -183,6 +183,18 @@ where
             .map(|m| pick(&m, &elig));
             rep.inc("fit_cases");
             rep.inc("sensitive");
+            // binary back-end: the fitted amount stands for the same magnitude (gross check, 1e-6 relative: the exact bound
+            // is C04's, also for Decimal, where intermediate roundings are amplified by the scale product; a result that
+            // took the natural-unit branch by mistake misses the scale factor altogether)
+            if BE == qv_model::Backend::F64 {
+                if let Some(zar) = rat_of(za) {
+                    let got_m = zar.mul(&zr[iw]);
+                    let tol = m_exact.abs().mul(&Rat::parse("1e-6").unwrap());
+                    if got_m.sub(&m_exact).abs().gt(&tol) && in_domain(&m_exact) {
+                        rep.violation("C05/fitted-amount", mk_case(), format!("{} {} = magnitude {}", amt::show(za), c.bz.vname(iw), got_m.show()), format!("magnitude {}", m_exact.show()));
+                    }
+                }
+            }
             if we != wc {
                 rep.inc("rounding_straddles_boundary");
             }
